@@ -234,7 +234,7 @@ public:
                 p.ops.append(mkop(QStringLiteral("pump"), {}, {}, salt));
                 break;
             case 7:
-                p.ops.append(mkop(QStringLiteral("lose"), { r.weighted({ 25, 40, 35 }) }, {}, salt));
+                p.ops.append(mkop(QStringLiteral("lose"), { r.weighted({ 25, 40, 35, 12 }) }, {}, salt));
                 break;
             case 8:
                 p.ops.append(mkop(QStringLiteral("reconn"), { r.weighted({ 50, 35, 15 }) }, {}, salt));
@@ -557,8 +557,15 @@ public:
                     wr.consumed = true;   // nobody can answer them any more
                 }
             };
+            // ground truth of the world, not the library's opinion: a stream that was closed in an orderly way (the server's
+            // </stream:stream> reached the client, or the application logged out) cannot be resumed (XEP-0198 section 5)
+            bool orderlyEnd = false;
             QObject::connect(w.client, &QXmppClient::disconnected, &ctx, [&] {
-                if (!w.client->smCanResume()) {
+                if (orderlyEnd) {
+                    orderlyEnd = false;
+                    w.probe("session_ended_by_orderly_close");
+                    obligeAllOutstanding(QStringLiteral("stream_closed_in_an_orderly_way"));
+                } else if (!w.client->smCanResume()) {
                     w.probe("nonresumable_session_end");
                     obligeAllOutstanding(QStringLiteral("session_ended_without_possibility_of_resumption"));
                 } else {
@@ -808,11 +815,20 @@ public:
                         }
                         switch (op.arg(0)) {
                         case 0:
+                            orderlyEnd = w.client->isConnected();
                             w.serverClose();
                             pumpAll();
                             break;
                         case 1:
                             w.cutLink();
+                            break;
+                        case 3:
+                            if (w.client->isConnected()) {
+                                w.fault("application_logs_out");
+                                orderlyEnd = true;
+                                w.client->disconnectFromServer();
+                                pumpAll();
+                            }
                             break;
                         default:
                             if (conn) {
@@ -823,6 +839,7 @@ public:
                         }
                     }
                 } else if (k == QLatin1String("reconn")) {
+                    orderlyEnd = false;
                     if (clientAlive && w.client->state() == QXmppClient::DisconnectedState && !w.connectPending) {
                         auto &sp = w.server->profile;
                         sp.quirks.remove(QStringLiteral("resume"));
